@@ -138,12 +138,17 @@ func genC17(t *testing.T, tr *vhlib.Trace, r *vhlib.Rand, n int) {
 	// long prefix, sometimes already beyond the retention boundary
 	w.doMine(tr, vhlib.Pick(r, 40, 100, 131, 140, 150, 200), "void", true)
 	reorgs := 0
+	if r.Chance(3, 4) {
+		w.dropRenewal(tr, r) // a block that revises and renews one contract, then reorged out
+	}
 	for i := 0; i < n && !w.dead; i++ {
 		switch x := r.Intn(100); {
 		case x < 25:
 			w.doForm(tr, uint64(4+r.Intn(30)))
 		case x < 35:
-			if len(w.cons) > 0 {
+			if r.Chance(1, 3) {
+				w.dropRenewal(tr, r)
+			} else if len(w.cons) > 0 {
 				if r.Chance(1, 2) {
 					w.doRevise(tr, r.Intn(len(w.cons)))
 				} else {
@@ -220,6 +225,8 @@ func replay(t *testing.T, tr *vhlib.Trace, ops []vhlib.ParsedLine) {
 			w.doFormV1(tr, op.U64("dur"), op.Int("risk") == 1, op.Int("nopool") == 1)
 		case "append":
 			w.doAppend(tr, op.Int("c"))
+		case "reviserenew":
+			w.doReviseRenew(tr, op.Int("c"))
 		case "chainrev":
 			w.doChainRev(tr, op.Int("c"))
 		case "twin":
